@@ -668,7 +668,14 @@ class Program:
                     bb = arms[keys[i]]
                 else:
                     iv = int(v) if not isinstance(v, bool) else (1 if v else 0)
-                    bb = arms.get(str(iv), arms.get("otherwise"))
+                    bb = arms.get(str(iv))
+                    if bb is None and iv < 0:      # switchInt prints negative discriminants in their unsigned representation
+                        for bits in (8, 16, 32, 64, 128):
+                            bb = arms.get(str(iv + (1 << bits)))
+                            if bb is not None:
+                                break
+                    if bb is None:
+                        bb = arms.get("otherwise")
                     if bb is None:
                         raise Unsupported(f"switch no arm {iv} {arms}")
             elif k == "drop":
@@ -845,6 +852,8 @@ class Program:
             v = deref(place_ref(rv[1]).get())
             if not isinstance(v, Adt):
                 raise Unsupported(f"discriminant of {v!r}")
+            if v.ty == "Ordering":       # explicit discriminants -1, 0, 1
+                return {"Less": -1, "Equal": 0, "Greater": 1}[v.variant]
             if v.ty == "__Field":
                 return int(v.variant[len("__field"):]) if v.variant.startswith("__field") else int(v.variant.split("#")[1])
             vs = self._variants_for(v.ty, v.variant)
